@@ -604,6 +604,7 @@ pub fn multi_bottom(_args: &[String]) -> String {
         }).collect();
         for pb in bars.iter().flatten() { pb.tick(); }
         let mut logs: Vec<String> = vec![];
+        let mut region = 3usize;
         let mut hist = vec!["MultiProgress with Bottom alignment, three bars with template {msg} {pos}, all ticked".to_string()];
         for (k, op) in ops.iter().enumerate() {
             match *op {
@@ -626,10 +627,13 @@ pub fn multi_bottom(_args: &[String]) -> String {
             let got = term.contents();
             let got = got.trim_end_matches('\n').to_string();   // blank rows at the end are part of the (empty) region
             let rows: Vec<&str> = if got.is_empty() { vec![] } else { got.split('\n').collect() };
-            let nblank = rows.len().saturating_sub(logs.len() + live.len());
+            let _ = &rows;
+            // Bottom alignment: the region keeps the height it had (rows the bars no longer use stay blank above them) until it
+            // is wiped by clear / suspend
+            if *op >= 10 { region = live.len(); } else { region = region.max(live.len()); }
             let mut want: Vec<String> = logs.clone();
             if !live.is_empty() {
-                for _ in 0..nblank { want.push(String::new()); }
+                for _ in live.len()..region { want.push(String::new()); }
                 want.extend(live.iter().cloned());
             }
             let want = want.join("\n");
@@ -674,6 +678,8 @@ pub fn multi_overflow(_args: &[String]) -> String {
                 }).collect();
                 hist.push(format!("{} bars of {} row(s) each", nbars, if kind == 0 { 1 } else { 2 }));
                 let mut pos = vec![0u64; nbars];
+                // rows that have scrolled out at the top stay out (the emulator, like a terminal, never scrolls back)
+                let mut scrolled = 0usize;
                 for round in 0..3 {
                     for (i, pb) in bars.iter().enumerate() {
                         if round > 0 { pb.inc(1); pos[i] += 1; } else { pb.tick(); }
@@ -696,11 +702,37 @@ pub fn multi_overflow(_args: &[String]) -> String {
                     // what is visible: the emulator shows the last `height` rows of [log ++ shown]
                     let mut all = vec!["log".to_string()];
                     all.extend(shown);
-                    let skip = all.len().saturating_sub(height as usize);
-                    let want = all[skip..].join("\n");
+                    scrolled = scrolled.max(all.len().saturating_sub(height as usize));
+                    let want = all[scrolled.min(all.len())..].join("\n");
                     let got = term.contents();
                     if got != want {
                         return report("C19 only the leading bars that fit are painted and redraws erase exactly their rows (C03: the printed line above is not touched)", &hist, &want, &got, "multi_overflow");
+                    }
+                }
+                // room appears without a paint (remove / clear): ordinary updates of the bars that were cut off bring them in
+                for how in 0..2 {
+                    if how == 0 { mp.remove(&bars[0]); hist.push("mp.remove(first bar)".into()); } else { let _ = mp.clear(); hist.push("mp.clear()".into()); }
+                    for (i, pb) in bars.iter().enumerate().skip(1).rev() { pb.inc(1); pos[i] += 1; }
+                    hist.push("inc(1) on the remaining bars, last one first".into());
+                    tried += 1;
+                    let mut shown: Vec<String> = vec![];
+                    let mut used = 0usize;
+                    'outer2: for i in 1..nbars {
+                        let r = rows_of(i, pos[i]);
+                        let lines: Vec<Vec<String>> = if kind == 2 { vec![r] } else { r.into_iter().map(|x| vec![x]).collect() };
+                        for l in lines {
+                            if used + l.len() > height as usize { break 'outer2; }
+                            used += l.len();
+                            shown.extend(l);
+                        }
+                    }
+                    let mut all = vec!["log".to_string()];
+                    all.extend(shown);
+                    scrolled = scrolled.max(all.len().saturating_sub(height as usize));
+                    let want = all[scrolled.min(all.len())..].join("\n");
+                    let got = term.contents();
+                    if got != want {
+                        return report("C19 omitted bars appear as soon as there is room (after a removal or a clear, on their next ordinary update)", &hist, &want, &got, "multi_overflow");
                     }
                 }
             }
@@ -780,7 +812,19 @@ pub fn multi_rate(_args: &[String]) -> String {
         let hist = vec!["MultiProgress on a 2 Hz target, bars A and B".to_string(), "60 x (A.set_message, B.set_message)".to_string(), "A.set_position(20); A.set_message(a-final)".to_string(), "sleep 700 ms".to_string(), "B.set_message(b-final)".to_string()];
         return report("C05 a skipped draw loses nothing: the next painted frame shows the latest state of every bar", &hist, want, &got, "multi_rate");
     }
-    "{\"found\": false, \"tried\": 1}".to_string()
+    // a request that arrives between one and two refresh intervals after the last painted frame is painted (three times)
+    let mut hist = vec!["the same MultiProgress (2 Hz)".to_string()];
+    for k in 21..24u64 {
+        std::thread::sleep(std::time::Duration::from_millis(650));
+        a.set_position(k);
+        hist.push(format!("sleep 650 ms; A.set_position({})", k));
+        let got = term.contents();
+        let want = format!("A a-final {}/40\nB b-final 0/40", k);
+        if got != want {
+            return report("C05 a redraw request arriving at least one refresh interval after the last painted frame is always painted (MultiProgress)", &hist, &want, &got, "multi_rate");
+        }
+    }
+    "{\"found\": false, \"tried\": 4}".to_string()
 }
 
 
